@@ -12,6 +12,7 @@ import (
 	"os"
 	"strings"
 	"testing"
+	"unicode"
 
 	"pgregory.net/rapid"
 	"verif/lib"
@@ -308,13 +309,11 @@ func c02LineGen(t *rapid.T) interface{} {
 
 func asciiLetters(s string) string {
 	var sb strings.Builder
-	for i := 0; i < len(s); i++ {
-		b := s[i]
-		if b >= 'A' && b <= 'Z' {
-			b += 32
-		}
-		if b >= 'a' && b <= 'z' {
-			sb.WriteByte(b)
+	for _, r := range s {
+		// rune-wise lower-casing, as the tokenizer does it: U+0130 and U+212A (Kelvin sign) become plain i and k
+		r = unicode.ToLower(r)
+		if r >= 'a' && r <= 'z' {
+			sb.WriteByte(byte(r))
 		}
 	}
 	return sb.String()
